@@ -1,4 +1,75 @@
-import SafeC.Models.Copy
-/-! Property theorems for C02 (see DESIGN.md §4). -/
+import SafeC.Proofs.CopyDisjoint
+/-!
+# C02 — no read ever goes outside what the caller declared readable
+
+Setting: ONLY the declared extents are mapped and readable — dest's `dmax` cells and, for a source,
+its string up to and including the terminator (or its first `slen` cells, whichever comes first).
+`exec … = .ok` therefore means no fault (nothing unmapped was touched) and `strays` unchanged means
+not a single access outside the declared extents — for every dmax, every source length (shorter than,
+equal to, longer than dmax), every prior dest content, both slack configurations, either order of the
+two objects in memory.  The overlapping placements are covered by C07 (where everything involved is
+declared readable anyway).
+-/
 namespace SafeC.Props.C02
+open SafeC Gen
+
+def NoStray (st st' : St) : Prop := st'.strays = st.strays
+
+theorem strcpy_s_C02 (cfg : Cfg) (dest dmax src n : Nat) (st : St)
+    (hd : dest ≠ 0) (hs : src ≠ 0) (hpos : 0 < dmax) (hle : dmax ≤ RSIZE_MAX_STR)
+    (hrw : RW st dest dmax) (hsrc : SrcStr st src n) (hdisj : Disjoint dest dmax src n) :
+    ∃ code st', exec (strcpy_s cfg dest dmax src none) st = .ok (code, st') ∧ NoStray st st' := by
+  obtain ⟨code, st', he, _, _, _, hs', _⟩ := strcpyG_disjoint _ cfg dest dmax src n st hd hs hpos hle hrw hsrc hdisj
+  exact ⟨code, st', he, hs'⟩
+
+theorem wcscpy_eq (cfg : Cfg) (dest dmax src : Nat) :
+    wcscpy_s cfg dest dmax src none = strcpyG RSIZE_MAX_WSTR cfg dest dmax src none := by
+  unfold wcscpy_s strcpyG chkDmaxClearW chkDmaxClear chkDmaxClearG failS
+  rfl
+
+theorem wcscpy_s_C02 (cfg : Cfg) (dest dmax src n : Nat) (st : St)
+    (hd : dest ≠ 0) (hs : src ≠ 0) (hpos : 0 < dmax) (hle : dmax ≤ RSIZE_MAX_WSTR)
+    (hrw : RW st dest dmax) (hsrc : SrcStr st src n) (hdisj : Disjoint dest dmax src n) :
+    ∃ code st', exec (wcscpy_s cfg dest dmax src none) st = .ok (code, st') ∧ NoStray st st' := by
+  rw [wcscpy_eq]
+  obtain ⟨code, st', he, _, _, _, hs', _⟩ := strcpyG_disjoint _ cfg dest dmax src n st hd hs hpos hle hrw hsrc hdisj
+  exact ⟨code, st', he, hs'⟩
+
+/-- strncpy_s: at most `slen` source cells are declared; the cell `src+slen` may be unmapped -/
+theorem strncpy_s_C02 (cfg : Cfg) (dest dmax src slen m : Nat) (st : St)
+    (hd : dest ≠ 0) (hs : src ≠ 0) (hpos : 0 < dmax) (hle : dmax ≤ RSIZE_MAX_STR)
+    (hslen : 0 < slen) (hslenle : slen ≤ RSIZE_MAX_STR)
+    (hrw : RW st dest dmax)
+    (hnz : ∀ j, j < m → st.data (src+j) ≠ 0)
+    (hrd : ∀ j, j < m → st.mapped (src+j) = true ∧ st.rd (src+j) = true)
+    (hfin : (m < slen ∧ st.data (src+m) = 0 ∧ st.mapped (src+m) = true ∧ st.rd (src+m) = true) ∨ slen = m)
+    (hdisj : dest + dmax ≤ src ∨ src + m < dest) :
+    ∃ code st', exec (strncpy_s cfg dest dmax src slen none none) st = .ok (code, st') ∧ NoStray st st' := by
+  obtain ⟨code, st', he, _, _, _, hs', _⟩ :=
+    strncpyG_disjoint _ cfg dest dmax src slen m st hd hs hpos hle (Nat.le_refl _) hslen hslenle hrw hnz hrd hfin hdisj
+  exact ⟨code, st', he, hs'⟩
+
+theorem strcat_s_C02 (cfg : Cfg) (dest dmax src dl n : Nat) (st : St)
+    (hd : dest ≠ 0) (hs : src ≠ 0) (hpos : 0 < dmax) (hle : dmax ≤ RSIZE_MAX_STR)
+    (hrw : RW st dest dmax) (hsrc : SrcStr st src n) (hdisj : Disjoint dest dmax src n)
+    (hdl : dl < dmax) (hdnz : ∀ j, j < dl → st.data (dest+j) ≠ 0) (hdnul : st.data (dest+dl) = 0) :
+    ∃ code st', exec (strcat_s cfg dest dmax src none) st = .ok (code, st') ∧ NoStray st st' := by
+  obtain ⟨code, st', he, _, _, _, hs', _⟩ :=
+    strcatG_disjoint _ cfg dest dmax src dl n st hd hs hpos hle hrw hsrc hdisj hdl hdnz hdnul
+  exact ⟨code, st', he, hs'⟩
+
+/-- non-vacuity: dest = 100 (5 cells), src = "ab" at 200, nothing else mapped -/
+def exSt : St :=
+  { data := fun a => if a = 200 then 97 else if a = 201 then 98 else 0
+    mapped := fun a => decide ((100 ≤ a ∧ a < 105) ∨ (200 ≤ a ∧ a < 203))
+    rd := fun a => decide ((100 ≤ a ∧ a < 105) ∨ (200 ≤ a ∧ a < 203))
+    wr := fun a => decide (100 ≤ a ∧ a < 105) }
+
+example : RW exSt 100 5 ∧ SrcStr exSt 200 2 ∧ Disjoint 100 5 200 2 := by
+  refine ⟨fun i hi => ?_, ⟨fun j hj => ?_, by simp [exSt], fun j hj => ?_⟩, Or.inl (by decide)⟩
+  · simp [exSt]; omega
+  · have : j = 0 ∨ j = 1 := by omega
+    rcases this with rfl | rfl <;> simp [exSt]
+  · simp [exSt]; omega
+
 end SafeC.Props.C02
